@@ -478,70 +478,76 @@ def as_completed(
   tasks: list[courier_worker.Task] = []
   preferred = set()
   exhausted = False
-  while not exhausted or tasks or running_tasks:
-    # Submitting the next batch of tasks.
-    if not worker_pool.workers:
-      raise TimeoutError('All workers timeout, check worker status.')
-    backup_workers = list(set(worker_pool.workers) - preferred)
-    random.shuffle(backup_workers)
-    workers = list(itertools.chain(preferred, backup_workers))
-    while (tasks or not exhausted) and (
-        worker := worker_pool.next_idle_worker(workers, maybe_acquire=True)
-    ):
-      # Ensure failed tasks are retried before new tasks are submitted.
-      if not tasks and not exhausted:
-        try:
-          tasks.append(courier_worker.Task.maybe_as_task(next(task_iterator)))
-        except StopIteration:
-          exhausted = True
-      if tasks:
-        running_tasks.append(worker.submit(tasks.pop()))
+  try:
+    while not exhausted or tasks or running_tasks:
+      # Submitting the next batch of tasks.
+      if not worker_pool.workers:
+        raise TimeoutError('All workers timeout, check worker status.')
+      backup_workers = list(set(worker_pool.workers) - preferred)
+      random.shuffle(backup_workers)
+      workers = list(itertools.chain(preferred, backup_workers))
+      while (tasks or not exhausted) and (
+          worker := worker_pool.next_idle_worker(workers, maybe_acquire=True)
+      ):
+        # Ensure failed tasks are retried before new tasks are submitted.
+        if not tasks and not exhausted:
+          try:
+            task = courier_worker.Task.maybe_as_task(next(task_iterator))
+            tasks.append(task)
+          except StopIteration:
+            exhausted = True
+        if tasks:
+          running_tasks.append(worker.submit(tasks.pop()))
 
-    # Check the results of the running tasks and retry timeout tasks.
-    still_running: list[courier_worker.Task] = []
-    for task in running_tasks:
-      if task.done():
-        if exc := task.exception():
-          preferred.discard(task.worker)
-          if isinstance(exc, TimeoutError) or courier_worker.is_timeout(exc):
-            logging.warning(
-                'chainable: %s',
-                f'deadline exceeded at {task.server_name}, retrying task.',
-            )
-            tasks.append(task.set(_exc=None))
-          elif ignore_failures:
-            logging.exception(
-                'chainable: %s',
-                f'task failed with exception: {exc}, task: {task}',
-            )
+      # Check the results of the running tasks and retry timeout tasks.
+      still_running: list[courier_worker.Task] = []
+      for task in running_tasks:
+        if task.done():
+          if exc := task.exception():
+            preferred.discard(task.worker)
+            if isinstance(exc, TimeoutError) or courier_worker.is_timeout(exc):
+              logging.warning(
+                  'chainable: %s',
+                  f'deadline exceeded at {task.server_name}, retrying task.',
+              )
+              tasks.append(task.set(_exc=None))
+            elif ignore_failures:
+              logging.exception(
+                  'chainable: %s',
+                  f'task failed with exception: {exc}, task: {task}',
+              )
+            else:
+              raise exc
           else:
-            raise exc
+            preferred.add(task.worker)
+            yield task.result()
+        elif not task.is_alive:
+          logging.warning(
+              'chainable: %s',
+              f'Worker {task.server_name} disconnected.',
+          )
+          assert task.state is not None
+          task.state.set_exception(
+              TimeoutError(f'{task.server_name} timeout.')
+          )
+          tasks.append(task.set(_exc=None))
         else:
-          preferred.add(task.worker)
-          yield task.result()
-      elif not task.is_alive:
-        logging.warning(
-            'chainable: %s',
-            f'Worker {task.server_name} disconnected.',
-        )
-        assert task.state is not None
-        task.state.set_exception(TimeoutError(f'{task.server_name} timeout.'))
-        tasks.append(task.set(_exc=None))
-      else:
-        still_running.append(task)
-    running_tasks = still_running
+          still_running.append(task)
+      running_tasks = still_running
 
-    # Releasing unused workers.
-    if exhausted and not tasks:
-      running = set(task.worker for task in running_tasks)
-      acquired = set(worker_pool.acquired_workers)
-      reserved = set()
-      # Reserve some workers from the preferred workers first.
-      if candidates := list(preferred - running or acquired - running):
-        # Reserve same amount of workers as the number of unproven workers.
-        num_reserved_workers = len(running - preferred)
-        reserved.update(random.sample(candidates, k=num_reserved_workers))
-      unused_workers = acquired - running - reserved
-      worker_pool.release_all(unused_workers)
-    time.sleep(0.0)
-  worker_pool.release_all()
+      # Releasing unused workers.
+      if exhausted and not tasks:
+        running = set(task.worker for task in running_tasks)
+        acquired = set(worker_pool.acquired_workers)
+        reserved = set()
+        # Reserve some workers from the preferred workers first.
+        if candidates := list(preferred - running or acquired - running):
+          # Reserve same amount of workers as the number of unproven workers.
+          num_reserved_workers = len(running - preferred)
+          reserved.update(random.sample(candidates, k=num_reserved_workers))
+        unused_workers = acquired - running - reserved
+        worker_pool.release_all(unused_workers)
+      time.sleep(0.0)
+  finally:
+    # Also runs when a task raises or the generator is closed early.
+    worker_pool.release_all()
